@@ -26,7 +26,7 @@ def e2(text, ref):
     return dict(cat="model_checking", engine="E2-bmc", tech="bounded model checking (z3 bit-vectors) of a transition system generated from the AST of run_function_on_graph.py, counterexample schedules replayed on real threads; plus bounded symbolic execution (CrossHair/z3) of the lemmas the model leans on",
                 text=text, ref=ref, note=E2_NOTE)
 CHECKS.update({
-    "C01": e2("For every instance (concrete 3-node shapes and fully symbolic 2/3-node DAGs, W<=3) the solver shows no interleaving of the real engine statements starts a call before all its ancestors ended successfully; any model is replayed on real threads before it is reported.", "DESIGN.md §4 C01"),
+    "C01": e2("For every instance (concrete 3-5-node shapes with W<=3; fully symbolic DAGs on 2 nodes with 2 workers and on 3 nodes with 1 worker) the solver shows no interleaving of the real engine statements starts a call before all its ancestors ended successfully; any model is replayed on real threads before it is reported.", "DESIGN.md §4 C01"),
     "C04": e2("Same transition system: no node's function starts twice in any interleaving, and when run returns normally every node started exactly once.", "DESIGN.md §4 C04"),
     "C06": e2("Same transition system with symbolic outcomes (ok / Exception / BaseException-only) and max_errors: nothing downstream of a failure starts; run raises iff something failed; the raised NodeError names a failed node and carries that node's exception; with one worker it is the first failure.", "DESIGN.md §4 C06"),
     "C07": e2("Unwinding query = every interleaving terminates within K steps (no deadlock, no livelock) for every failure pattern and max_errors; at return all threads have exited and nothing is in flight; on cyclic symbolic graphs the run raises before any call starts; also with one refused Thread.start (RuntimeError) at any worker, and the rendering of a failed call's symbolic traceback terminates within a read budget (E1 lemma).", "DESIGN.md §4 C07, §11.11"),
